@@ -19,6 +19,7 @@ func HStableEap() {
 		return
 	}
 	vr.Cover("c12.eap.reencoded")
+	vr.Output("c12.eap.reencoding", b2)
 	e2 := new(EAP)
 	err = e2.Unmarshal(b2)
 	vr.Assert("c12.redecode.ok", err == nil)
